@@ -75,6 +75,9 @@ func ValidVariants(s *Schema) []Variant {
 					m = s.Clone()
 					m.Defs[di].Fields[fi].Dirs = append(m.Defs[di].Fields[fi].Dirs, du("deprecated", "reason", "because \"x\""))
 					add(m, "deprecated field with reason")
+					m = s.Clone()
+					m.Defs[di].Fields[fi].Dirs = append(m.Defs[di].Fields[fi].Dirs, DirUse{Name: "deprecated", Args: []KV{{Name: "reason", Value: nil}}})
+					add(m, "deprecated field with an explicit null reason")
 					break
 				}
 			}
@@ -98,6 +101,11 @@ func ValidVariants(s *Schema) []Variant {
 			m = s.Clone()
 			m.Defs[di].Values[0].Dirs = append(m.Defs[di].Values[0].Dirs, du("deprecated"))
 			add(m, "deprecated enum value")
+			if len(d.Values) > 1 {
+				m = s.Clone()
+				m.Defs[di].Values[len(d.Values)-1].Dirs = append(m.Defs[di].Values[len(d.Values)-1].Dirs, DirUse{Name: "deprecated", Args: []KV{{Name: "reason", Value: nil}}})
+				add(m, "enum value deprecated with an explicit null reason")
+			}
 		case KUnion:
 			for _, o := range objs {
 				dup := false
